@@ -784,12 +784,76 @@ def rule_r6(chk, p, t, rid="C04.R6"):
         else:
             r.ok(fn.qualname, f"days-before-month table `{tname}` + leap day from March on", fn.loc())
 
+    def stdlib_idiom(fn):
+        """dayOfYear written with the standard library's calendar (`date(year, month, day).timetuple().tm_yday`, or an
+        ordinal difference to 1 January of `year`).  The caller pairs the result with `year` (elapsed days since
+        1 January of that year, greenwichApparentTime), and adds offsets such as UT1-UTC to the seconds, so the day
+        number must be that of the *given* calendar date and the time of day must enter linearly: a date shifted by
+        the (floored) time of day can fall into the neighbouring year, whose day number counts from another 1 January."""
+        from rsa.ratfun import NotEvaluable, rat_equal, ratfun
+
+        params = fn.params
+        require(len(params) >= 6, "dayOfYear: unexpected parameters", fn.node)
+        y, mo, d, h, mi, sec = params[:6]
+        yday = [n for n in walk_no_nested(fn.node) if isinstance(n, ast.Attribute) and n.attr == "tm_yday"]
+        if len(yday) != 1:
+            return False
+        recv = yday[0].value
+        require(isinstance(recv, ast.Call) and call_name(recv) == "timetuple" and isinstance(recv.func, ast.Attribute), "tm_yday is not read from <date>.timetuple()", yday[0])
+        base = recv.func.value
+        bad = []
+        defs = []
+        if isinstance(base, ast.Name):
+            for n in walk_no_nested(fn.node):
+                if isinstance(n, ast.Assign) and any(isinstance(tg, ast.Name) and tg.id == base.id for tg in n.targets):
+                    defs.append(n.value)
+                elif isinstance(n, ast.AugAssign) and isinstance(n.target, ast.Name) and n.target.id == base.id:
+                    defs.append(ast.BinOp(left=ast.Name(id=base.id, ctx=ast.Load()), op=n.op, right=n.value))
+                elif isinstance(n, ast.NamedExpr) and n.target.id == base.id:
+                    defs.append(n.value)
+        else:
+            defs = [base]
+        require(defs, "the date whose day number is taken has no definition", yday[0])
+
+        def strip(e):
+            while isinstance(e, ast.Call) and call_name(e) in ("int", "float") and len(e.args) == 1:
+                e = e.args[0]
+            return e
+
+        for v in defs:
+            if isinstance(v, ast.Call) and call_name(v) in ("date", "datetime") and not v.keywords and len(v.args) >= 3:
+                got = [unparse(strip(a)) for a in v.args[:3]]
+                if got != [y, mo, d]:
+                    bad.append(f"the day number is taken of `{unparse(v)}`, not of the date ({y}, {mo}, {d})")
+            else:
+                bad.append(
+                    f"the day number (tm_yday) is taken of `{unparse(v)[:80]}`: a date moved away from ({y}, {mo}, {d}) can lie in "
+                    f"the neighbouring year, whose day number counts from another 1 January than the caller's `{y}`"
+                )
+        if not bad:
+            rets = [n for n in walk_no_nested(fn.node) if isinstance(n, ast.Return) and n.value is not None]
+            require(len(rets) == 1, "dayOfYear: single return expected", fn.node)
+            e = inline_locals(fn, rets[0].value)
+            try:
+                want = ratfun(ast.parse(f"{unparse(yday[0])} + {h} / 24 + {mi} / 1440 + {sec} / 86400", mode="eval").body)
+                if not rat_equal(ratfun(e), want):
+                    bad.append(f"day fraction `{unparse(e)[:100]}`")
+            except NotEvaluable as ex:
+                raise Undecided(f"dayOfYear: {ex}", fn.node) from None
+        if bad:
+            r.violation(fn.qualname, "calendar:" + ";".join(b[:60] for b in bad), f"{fn.name}: " + "; ".join(bad), fn.loc())
+        else:
+            r.ok(fn.qualname, f"day number of date({y}, {mo}, {d}) from the standard library + linear day fraction", fn.loc())
+        return True
+
     for q in ("resonaate.physics.time.conversions.dayOfYear", "resonaate.physics.time.stardate.days2mdh"):
         fn = p.func(q)
 
         def one(fn=fn):
             lits = [n for n in walk_no_nested(fn.node) if isinstance(n, ast.Assign) and isinstance(n.value, ast.List) and len(n.value.elts) == 12]
             if not lits and fn.name == "dayOfYear":
+                if stdlib_idiom(fn):
+                    return None
                 return cumulative_idiom(fn)
             require(len(lits) == 1, "no 12-element month table", fn.node)
             vals = [getattr(e, "value", None) for e in lits[0].value.elts]
@@ -1407,6 +1471,206 @@ def rule_r11(chk, p, t, rid="C04.R11"):
     )
 
 
+def rule_r12(chk, p, t, rid="C04.R12"):
+    r = chk.rule(
+        rid,
+        "mirror symmetry of the geodetic and spherical conversions on every return path",
+        8,
+        "the reference ellipsoid and the sphere are symmetric about the equatorial plane and about every meridian "
+        "plane: mirroring the Earth-fixed point (z -> -z, resp. y -> -y) must mirror the result (latitude / declination "
+        "resp. longitude / right ascension change sign, height and range stay) and vice versa - on *every* return "
+        "path, including special-case shortcuts for degenerate inputs that the general closed form never reaches.  "
+        "Decided by a parity dataflow analysis (rsa/symmetry.py: even / odd / mixed / unknown under the reflection, "
+        "sign rules of arithmetic, odd and even elementary functions, conditions on reflection-invariant values keep a "
+        "point and its image on the same path, `odd == 0` is the fixed set where nothing is claimed); a component with a "
+        "definite parity other than the demanded one is a violation, an unknown parity is undecided",
+        "the values; anything on the fixed set of the reflection (equator, prime meridian plane); conversions that are "
+        "not mirror images of themselves (time-dependent Earth rotation); angles are compared modulo a full turn",
+    )
+    from rsa import symmetry as S
+
+    M = "resonaate.physics.transforms.methods."
+    z6, y6 = (S.E, S.E, S.O, S.E, S.E, S.O), (S.E, S.O, S.E, S.E, S.O, S.E)
+    TABLE = [
+        # function, reflection, {parameter: parity}, demanded result parity
+        ("ecef2lla", "z -> -z", lambda ps: {ps[0]: z6}, (S.O, S.E, S.E)),
+        ("ecef2lla", "y -> -y", lambda ps: {ps[0]: y6}, (S.E, S.O, S.E)),
+        ("lla2ecef", "lat -> -lat", lambda ps: {ps[0]: (S.O, S.E, S.E)}, z6),
+        ("lla2ecef", "lon -> -lon", lambda ps: {ps[0]: (S.E, S.O, S.E)}, y6),
+        ("cartesian2spherical", "z -> -z", lambda ps: {ps[0]: z6}, (S.E, S.O, S.E, S.E, S.O, S.E)),
+        ("cartesian2spherical", "y -> -y", lambda ps: {ps[0]: y6}, (S.E, S.E, S.O, S.E, S.E, S.O)),
+        ("spherical2cartesian", "theta -> -theta", lambda ps: {ps[1]: S.O, ps[4]: S.O}, z6),
+        ("spherical2cartesian", "phi -> -phi", lambda ps: {ps[2]: S.O, ps[5]: S.O}, y6),
+    ]
+    for name, refl, seed_of, want in TABLE:
+        fn = p.func(M + name)
+
+        def one(fn=fn, refl=refl, seed_of=seed_of, want=want, name=name):
+            require(len(fn.params) >= (6 if name == "spherical2cartesian" else 1), f"{name}: unexpected parameters", fn.node)
+            # wrapAngle2Pi(-x) = 2 pi - wrapAngle2Pi(x): the mirror image of an angle modulo a full turn
+            rets, notes = S.analyse(fn, seed_of(fn.params), odd_funcs=("wrapAngle2Pi",))
+            require(rets, f"{name}: no return found", fn.node)
+            n_ok = 0
+            for st, got in rets:
+                res = S.conforms(got, want)
+                if "violation" in res:
+                    bad = [i for i, x in enumerate(res) if x == "violation"]
+                    r.violation(
+                        fn.qualname,
+                        f"{name}:{refl}:components{bad}",
+                        f"{name} under {refl}: the value returned at line {st.lineno} has parity {S.describe(got)}, the "
+                        f"mirror image demands {S.describe(want)} (component(s) {bad}): the result for a point and for its mirror "
+                        "image are not mirror images of each other",
+                        fn.loc(st),
+                    )
+                elif "unknown" in res:
+                    why = "; ".join(f"line {ln}: {tx}" for ln, tx in notes[:2])
+                    r.undecided(fn.qualname + ":" + refl, f"{name} under {refl}: parity {S.describe(got)} of the value returned at line {st.lineno} is not determined" + (f" ({why})" if why else ""), fn.loc(st))
+                else:
+                    n_ok += 1
+            if n_ok == len(rets):
+                r.ok(fn.qualname + ":" + refl, f"{len(rets)} return path(s): {S.describe(want)}", fn.loc(), obligations=len(rets))
+
+        r.guard(fn.qualname + ":" + refl, one)
+
+
+_ECEF2LLA_REF = """
+def ref(X):
+    r_i, r_j, r_k = X[0], X[1], X[2]
+    r_delta = sqrt(r_i**2 + r_j**2)
+    a = Earth.radius
+    b = a * sqrt(1 - Earth.eccentricity**2) * sign(r_k)
+    E = (b * r_k - (a**2 - b**2)) / (a * r_delta)
+    F = (b * r_k + (a**2 - b**2)) / (a * r_delta)
+    P = 4.0 * (E * F + 1) / 3.0
+    Q = 2.0 * (E**2 - F**2)
+    D = P**3 + Q**2
+    if D >= 0:
+        nu = (sqrt(D) - Q) ** (1.0 / 3) - (sqrt(D) + Q) ** (1.0 / 3)
+    else:
+        nu = 2.0 * sqrt(-P) * cos(arccos(Q / (P * sqrt(-P))) / 3.0)
+    G = 0.5 * (sqrt(E**2 + nu) + E)
+    t = sqrt(G**2 + (F - nu * G) / (2 * G - E)) - G
+    lat = arctan(a * (1.0 - t**2) / (2.0 * b * t))
+    lon = arctan2(r_j, r_i)
+    alt = (r_delta - a * t) * cos(lat) + (r_k - b) * sin(lat)
+    return array([lat, lon, alt])
+"""
+
+
+def rule_r13(chk, p, t, rid="C04.R13"):
+    r = chk.rule(
+        rid,
+        "Earth-fixed to geodetic follows the cited closed form",
+        1,
+        "ecef2lla cites Vallado Algorithm 13 (the closed-form solution of the quartic in t = tan(pi/4 - psi/2), "
+        "Borkowski / Astronomical Almanac): E, F = (b z -/+ (a^2 - b^2)) / (a r_delta) with b = sign(z) a sqrt(1 - e^2), "
+        "P = 4 (E F + 1) / 3, Q = 2 (E^2 - F^2), D = P^3 + Q^2, nu by the sign of D, G, t, latitude = arctan(a (1 - t^2) / "
+        "(2 b t)), longitude = arctan2(y, x), height = (r_delta - a t) cos(lat) + (z - b) sin(lat).  Every return path "
+        "is inlined to the parameters (path-wise substitution, nothing executed) and compared with the reference as a "
+        "rational function over opaque atoms; for each of the two D-branches some path taken under that polarity of the "
+        "D test must return exactly the reference triple.  Paths guarded by a degenerate-input test (on the polar "
+        "axis, z = 0) are not compared with the closed form - their mirror symmetry is R12's",
+        "floating-point accuracy near the poles; the degenerate paths' values",
+    )
+    import types
+
+    from rsa.ratfun import eval_steps, rat_equal, ratfun
+    from rsa.terms import NotEvaluable, path_steps
+
+    fn = p.func("resonaate.physics.transforms.methods.ecef2lla")
+
+    def triple(e):
+        arr = e.args[0] if isinstance(e, ast.Call) and call_name(e) in ("array", "asarray") and e.args else e
+        if isinstance(arr, (ast.List, ast.Tuple)) and len(arr.elts) == 3:
+            return arr.elts
+        return None
+
+    def one():
+        ref_node = ast.parse(_ECEF2LLA_REF).body[0]
+        x = fn.params[0]
+
+        class RN(ast.NodeTransformer):
+            def visit_Name(self, n):
+                return ast.copy_location(ast.Name(id=x, ctx=n.ctx), n) if n.id == "X" else n
+
+        ref_paths = path_steps(types.SimpleNamespace(node=RN().visit(ref_node), qualname="ref"))
+        require(len(ref_paths) == 2, "internal: reference has two paths", fn.node)
+
+        def evaluate(path):
+            env, conds = eval_steps(path["steps"])
+            tr = triple(path["ret"].value) if path["ret"] is not None and path["ret"].value is not None else None
+            if tr is None:
+                # `return lla` of a local bound to the array literal
+                v = path["ret"].value if path["ret"] is not None else None
+                if isinstance(v, ast.Name):
+                    for st in reversed(path["steps"]):
+                        if st[0] == "bind" and st[1] == v.id:
+                            tr = triple(st[2])
+                            break
+            if tr is None:
+                return None, conds
+            return [ratfun(c, None, env) for c in tr], conds
+
+        refs = {}
+        for pth in ref_paths:
+            got, conds = evaluate(pth)
+            test, pol, env = conds[-1]
+            refs[pol] = (got, ratfun(test.left, None, env))
+        try:
+            paths = path_steps(fn, max_paths=128)
+        except NotEvaluable as e:
+            raise Undecided(f"ecef2lla: {e}")
+        found = {True: [], False: []}
+        other = 0
+        for pth in paths:
+            try:
+                got, conds = evaluate(pth)
+            except NotEvaluable:
+                got = None
+            if got is None:
+                other += 1
+                continue
+            hit = None
+            for pol, (want, dexpr) in refs.items():
+                if all(rat_equal(g, w) for g, w in zip(got, want)):
+                    hit = pol
+            if hit is None:
+                other += 1
+                continue
+            # the D test on this path: a comparison of D with zero whose polarity selects this branch
+            dpol = None
+            want_d = refs[hit][1]
+            for test, lab, env in conds:
+                if isinstance(test, ast.Compare) and len(test.ops) == 1:
+                    try:
+                        lk, rk = ratfun(test.left, None, env), ratfun(test.comparators[0], None, env)
+                    except NotEvaluable:
+                        continue
+                    op = type(test.ops[0])
+                    if rat_equal(lk, want_d) and not rk[0]:
+                        nonneg = {ast.GtE: True, ast.Gt: True, ast.Lt: False, ast.LtE: False}.get(op)
+                    elif rat_equal(rk, want_d) and not lk[0]:
+                        nonneg = {ast.LtE: True, ast.Lt: True, ast.Gt: False, ast.GtE: False}.get(op)
+                    else:
+                        continue
+                    if nonneg is not None:
+                        dpol = nonneg if lab else not nonneg
+            found[hit].append(dpol)
+        bad = []
+        for pol, nm in ((True, "D >= 0 (one real root: cube roots)"), (False, "D < 0 (three real roots: trigonometric form)")):
+            if not found[pol]:
+                bad.append(f"no return path returns the closed form of the branch {nm}")
+            elif not any(d == pol for d in found[pol]):
+                bad.append(f"the closed form of the branch {nm} is returned under the opposite (or no) test of D = P^3 + Q^2")
+        if bad:
+            r.violation(fn.qualname, "ecef2lla:" + ";".join(b[:50] for b in bad), "ecef2lla deviates from the cited closed form (Vallado Algorithm 13): " + "; ".join(bad), fn.loc())
+        else:
+            r.ok(fn.qualname, f"both D-branches agree with the reference ({len(paths)} paths, {other} degenerate-input path(s) not compared)", fn.loc(), obligations=2)
+
+    r.guard(fn.qualname, one)
+
+
 def run(chk, p, t):
     chk.explanation = (
         "Static decision of structural necessary conditions of C04 by normal forms of rotation chains and matrix "
@@ -1418,7 +1682,7 @@ def run(chk, p, t):
         "geodetic closed form."
     )
     chk.assumptions += ["numpy matmul / dot / multi_dot are matrix products; .T is the transpose", "passive rotation convention of Vallado eq. 3-15 (cited by the module)"]
-    for fn in (rule_r1, rule_r2, rule_r3, rule_r4, rule_r5, rule_r6, rule_r7, rule_r8, rule_r9, rule_r10, rule_r11):
+    for fn in (rule_r1, rule_r2, rule_r3, rule_r4, rule_r5, rule_r6, rule_r7, rule_r8, rule_r9, rule_r10, rule_r11, rule_r12, rule_r13):
         rid = "C04.R" + fn.__name__.split("_r")[-1]
         if not chk.wants(rid):
             continue
